@@ -19,7 +19,7 @@ import (
 	"verifharness/gal"
 )
 
-const header = "From CSS Require Import Lib.Base Lib.Cases Model.Manifest Model.ManifestCases.\nFrom Coq Require Import Init.Byte."
+const header = "From CSS Require Import Lib.Base Lib.Cases Model.Manifest Model.ManifestOrder Model.ManifestCases.\nFrom Coq Require Import Init.Byte."
 
 // finding ids (KNOWN_FINDINGS.json, open).  Repaired and therefore ordinary
 // failures when they come back: C18-bg10-signbpm-cut (ee4d7c9),
@@ -41,14 +41,15 @@ type signedFile struct {
 }
 
 type run struct {
-	c       *gal.Ctx
-	keys    map[string]*rsa.PrivateKey   // RSA keys by name (A, B, C: 2048; D, E: 3072)
-	ecc     map[string]*ecdsa.PrivateKey // ECC keys by name (P, P2: P-256; Q, Q2: P-224)
-	big     chan genResult               // RSA-3072 generation in flight
-	sigtab  map[string][]int             // scheme ids fiano signs with, per generation and key
-	nosweep map[string]bool              // signed files left out of the bit-flip sweep
-	signed  []*signedFile
-	known   map[string]int
+	c           *gal.Ctx
+	keys        map[string]*rsa.PrivateKey   // RSA keys by name (A, B, C: 2048; D, E: 3072)
+	ecc         map[string]*ecdsa.PrivateKey // ECC keys by name (P, P2: P-256; Q, Q2: P-224)
+	big         chan genResult               // RSA-3072 generation in flight
+	sigtab      map[string][]int             // scheme ids fiano signs with, per generation and key
+	nosweep     map[string]bool              // signed files left out of the bit-flip sweep
+	signed      []*signedFile
+	known       map[string]int
+	structFails int // failing inputs found by the structural stage (the first thirty are recorded in full)
 }
 
 func schemeID(s string) int {
@@ -325,6 +326,8 @@ func main() {
 	}()
 	r := &run{c: c, keys: map[string]*rsa.PrivateKey{}, ecc: map[string]*ecdsa.PrivateKey{}, known: map[string]int{}, sigtab: map[string][]int{}, nosweep: map[string]bool{}}
 	t0 := time.Now()
+	// the process configuration as the harness finds it, before any call of the package
+	c.Add("session/configuration", fmt.Sprintf("CConf lib_default_conf %s []", confLit()), map[string]interface{}{"at": "process start"}, true)
 	r.makeKeys()
 	c.Rep.Extra["keygen_seconds"] = time.Since(t0).Seconds()
 
@@ -337,6 +340,7 @@ func main() {
 	timed("signAll", r.signAll)
 	timed("artifacts", r.artifacts)
 	timed("sweeps", r.sweeps)
+	timed("structural", r.structural)
 	timed("binding", r.binding)
 	timed("lifecycles", r.lifecycles)
 	timed("passwords", r.passwords)
